@@ -30,6 +30,11 @@ class by class, and with a from-scratch reachability walk of the graph:
           link an Instance or a ':' link - are called for a final attribute
           iff the 4-argument voice is, also below a first link set to None
   late    deferred=True on the fully built tree (known finding, own stratum)
+  truth   histories of their own on node classes whose instances may be FALSE
+          (__len__ over a list of the node's own / over its list link, __bool__
+          over a flag trait, constantly false); operations of their own change
+          the truth value between hooking and detaching; same laws (an object's
+          truth value is not reachability); keys get '+falsy-nodes'
 
 Every step is followed by a probe phase that changes the final attribute on
 every node of the tree and on recently detached nodes.  See DESIGN.md 4 / C16.
@@ -39,7 +44,7 @@ import itertools
 import weakref
 
 from traits.api import (
-    Any, HasTraits, Int, Instance, List, Dict, Set, Str, on_trait_change,
+    Any, Bool, HasTraits, Int, Instance, List, Dict, Set, Str, on_trait_change,
     push_exception_handler,
 )
 from traits.observation.api import (
@@ -78,7 +83,19 @@ META = {
              "whose first link is an Instance '.' link) are answered by one call or one logged "
              "TraitError per voice and are followed by probes of the detached subtree x in a 3% "
              "stratum a LATE deferred=True registration on the fully built tree (known finding "
-             "late-deferred/observe-only) x random tree x 16-20 (thorough: 16-28) random operations (link reassignment to fresh subtree / None, "
+             "late-deferred/observe-only) x in a stratum of FURTHER histories (+12%) node "
+             "classes whose instances may be FALSE: __len__ over a list trait of the node's own "
+             "that is on no name, __bool__ over a flag trait (both: half of the nodes start false, "
+             "and 24% of the operations are truth-value changes - by assignment or by in-place "
+             "mutation of the list - mostly of objects on the path, the root included, mostly "
+             "from true to false, so that objects are hooked while true and replaced / removed / "
+             "left in a replaced container / below a detached parent / under a removed "
+             "registration while false, and the other way round; such a change must not be "
+             "reported by anybody), __len__ over the node's own list link cs (ordinary container "
+             "operations change the truth value), and a constantly false __bool__; all link kinds "
+             "(Instance, List, Dict, Set, groups), all other strata (early, sigs, multi) combine; "
+             "truth is not reachability, the laws are unchanged (keys get '+falsy-nodes') "
+             "x random tree x 16-20 (thorough: 16-28) random operations (link reassignment to fresh subtree / None, "
              "whole-container assignment, every mutating list/dict/set method, re-insertion of a "
              "detached subtree root, on attached on-path, attached off-path and detached nodes; "
              "mutation - mostly insertion of fresh subtrees - of a container OBJECT that an earlier "
@@ -127,7 +144,22 @@ META = {
                   "dst_final_nonempty_matched": 5500, "dst_dot_final_nonempty_matched": 3000,
                   "dst_detached_nonvacuous_silent": 9000, "dst_link0_cleared": 300,
                   "dst_cleared_detached_nonvacuous_silent": 900,
-                  "late_deferred_registrations": 55, "late_deferred_nonempty_matched": 400},
+                  "late_deferred_registrations": 55, "late_deferred_nonempty_matched": 400,
+                  # nodes that may be false: truth-value changes of on-path objects; final calls
+                  # for false objects; silence of objects detached while they (or an object
+                  # above them in the detached subtree) were false, per kind of the detaching
+                  # link; the same for objects true when hooked and false when detached; and
+                  # after the removal of the registration
+                  "truth_flips_onpath": 700, "truth_falsy_nonempty_matched": 6000,
+                  "truth_falsy_detached_nonvacuous_silent": 7500,
+                  "truth_falsy_detached_silent:inst": 1800,
+                  "truth_falsy_detached_silent:list": 1800,
+                  "truth_falsy_detached_silent:dict": 1500,
+                  "truth_falsy_detached_silent:set": 1100,
+                  "truth_falsy_detached_silent:group": 900,
+                  "truth_turned_falsy_detached_silent": 450,
+                  "truth_falsy_after_remove_nonvacuous_silent": 2000,
+                  "truth_turned_falsy_after_remove_silent": 140},
         "thorough": {"evaluations": 8000000, "final_nonempty_matched": 500000,
                      "link_reported_matched": 35000, "link_colon_silent_matched": 35000,
                      "item_dot_matched": 40000, "item_colon_silent_matched": 40000,
@@ -152,7 +184,17 @@ META = {
                      "dst_final_nonempty_matched": 65000, "dst_dot_final_nonempty_matched": 36000,
                      "dst_detached_nonvacuous_silent": 100000, "dst_link0_cleared": 3600,
                      "dst_cleared_detached_nonvacuous_silent": 10000,
-                     "late_deferred_registrations": 650, "late_deferred_nonempty_matched": 4800},
+                     "late_deferred_registrations": 650, "late_deferred_nonempty_matched": 4800,
+                     "truth_flips_onpath": 11000, "truth_falsy_nonempty_matched": 85000,
+                     "truth_falsy_detached_nonvacuous_silent": 110000,
+                     "truth_falsy_detached_silent:inst": 28000,
+                     "truth_falsy_detached_silent:list": 26000,
+                     "truth_falsy_detached_silent:dict": 25000,
+                     "truth_falsy_detached_silent:set": 20000,
+                     "truth_falsy_detached_silent:group": 9000,
+                     "truth_turned_falsy_detached_silent": 6500,
+                     "truth_falsy_after_remove_nonvacuous_silent": 28000,
+                     "truth_turned_falsy_after_remove_silent": 1800},
     },
     "assumptions": [
         "graphs are tree-shaped: every object is referenced from at most one place",
@@ -168,6 +210,9 @@ META = {
         "comparison mode; only agreement is demanded) but the final-attribute law applies to the "
         "new and the old object all the same; set algebra with foreign-but-equal objects is kept "
         "out (TraitSet reports the foreign object as removed: C07's subject)",
+        "'truth' stratum: an object's truth value (__len__ / __bool__ of a HasTraits subclass) is "
+        "neither identity nor reachability; the harness itself never tests a node for truth "
+        "except to record it, and the nodes' __len__ / __bool__ read instance __dict__ only",
         "'multi' stratum: a handler owner counts as gone once a weak reference to it is dead; a "
         "failure after such a drop gets the key suffix '+owner-dropped'",
         "node flavour 'dyn': `del obj.link` (reset to default) is not part of the alphabet: the "
@@ -270,6 +315,60 @@ class ND(N):
 # "eqd" is the stratum of its own for value-equal whole-DICT replacements (finding F44,
 # see run_history); "eq" never draws that pattern.
 NODE_CLASSES = {"plain": N, "eq": NE, "eqd": NE, "dyn": ND}
+
+
+class NLen(N):
+    """Node flavour "len": a container-like node whose truth value is its size
+    (`__len__` over a list of its own that is no link of any name)."""
+    bag = List(Int)
+
+    def __len__(self):
+        return len(self.__dict__.get("bag") or ())
+
+
+class NFlag(N):
+    """Node flavour "flag": `__bool__` over a flag trait."""
+    on = Bool
+
+    def __bool__(self):
+        return bool(self.__dict__.get("on", False))
+
+
+class NNever(N):
+    """Node flavour "never": constantly false."""
+
+    def __bool__(self):
+        return False
+
+
+class NLenKids(N):
+    """Node flavour "lenkids": `__len__` is the number of children in the list
+    link `cs`; the ordinary container operations change the truth value."""
+
+    def __len__(self):
+        return len(self.__dict__.get("cs") or ())
+
+
+NODE_CLASSES.update({"len": NLen, "flag": NFlag, "never": NNever, "lenkids": NLenKids})
+# the "truth" stratum: node classes whose instances may be false.  Truth is a fact about
+# the object's state, not about identity or reachability: no law changes.
+TRUTH_FLAVOURS = ("len", "flag", "never", "lenkids")
+TRUTH_SETTABLE = ("len", "flag")       # truth value set by an operation of its own
+
+
+def set_truth(n, k, how="assign"):
+    """Give a "len" / "flag" node the truth value bool(k)."""
+    if isinstance(n, NLen):
+        if how == "assign":
+            n.bag = [1] * k
+        else:
+            if k == 0 and len(n.bag) % 2:
+                n.bag.clear()
+            else:
+                del n.bag[:]
+            n.bag.extend([1] * k)
+    elif isinstance(n, NFlag):
+        n.on = bool(k)
 
 
 class Pool(dict):
@@ -585,6 +684,8 @@ def gen_spec(rng, counter, pair, depth, budget, nf="plain"):
     spec = {"s": next(counter)}
     if nf in ("eq", "eqd") and rng.random() < 0.2:
         spec["t"] = 1            # most nodes share tag 0: replacements are mostly equal
+    if nf in TRUTH_SETTABLE:
+        spec["b"] = rng.choice((0, 0, 1, 2))      # initial size / flag: half are false
     k = len(pair.path)
     if depth > k or budget[0] <= 0:
         return spec
@@ -631,6 +732,8 @@ def build(spec, pool):
         n.tag = spec["t"]
     if "dyn" in spec:
         n.dyn = (pool, spec["dyn"], pool.sink)
+    if spec.get("b"):
+        set_truth(n, spec["b"])
     pool[spec["s"]] = n
     for a in ATTRS:
         if a in spec:
@@ -761,6 +864,8 @@ class History:
             self.root = rc(ser=root_spec["s"])
             if "t" in root_spec:
                 self.root.tag = root_spec["t"]
+            if root_spec.get("b"):
+                set_truth(self.root, root_spec["b"])
             self.pool[root_spec["s"]] = self.root
             self.root_links = dict(root_spec.get("dyn", {}))
             self.root_links.update({a: root_spec[a] for a in ATTRS if a in root_spec})
@@ -785,6 +890,14 @@ class History:
         self.stale = {}
         self.last_stale = None
         self.nops = 0
+        # "truth" stratum: nodes that may be false (state-dependent or constant)
+        self.truth = self.nf in TRUTH_FLAVOURS
+        self.first_truth = {}         # serial -> truth value when first called for (hooked)
+        # serial -> (a node of the detached subtree on the path down to this one was false
+        #            when the subtree was detached, link kind of the detaching step,
+        #            the node itself was false then)
+        self.detach_info = {}
+        self.falsy_at_remove = {}     # serial (final level at removal) -> (chain, self) false
         # structural class of the last operation ("assign@list.", "item@offpath-dict", ...):
         # the name-pair class used in mechanism keys is the class of the path
         # step the operation acted on, not the whole name (one defect, few keys)
@@ -844,12 +957,15 @@ class History:
             raise Violation("register/raised/%s" % type(e).__name__,
                             "registration of %r raised %r" % (self.pair.desc(), e))
         self.registered = True
+        self.falsy_at_remove = {}
         self.absorb_defaults()
         self.check_exc("register")
         self.rec.clear()
 
     def unregister(self):
         del EXC[:]
+        if self.truth:
+            self.falsy_at_remove = self.falsy_chain()
         try:
             self.root.on_trait_change(self.h4, self.pair.legacy, remove=True)
             self.root.on_trait_change(self.h0, self.pair.legacy, remove=True)
@@ -898,6 +1014,81 @@ class History:
             for n in nodes:
                 out[ser(n)] = i
         return out
+
+    # -- truth values ("truth" stratum) ----------------------------------------------
+    def falsy_chain(self):
+        """serial -> (some object on the path from the root down to this one is
+        false right now, this one is) for the nodes on the final level."""
+        cur = [(self.root, not bool(self.root))]
+        for alts in self.pair.path:
+            nxt = []
+            for n, f in cur:
+                for a in alts:
+                    nxt.extend((x, f or not bool(x)) for x in kids(n, a))
+            cur = nxt
+        return {ser(n): (f, not bool(n)) for n, f in cur}
+
+    def mark_detached(self, x, level, kind):
+        """x (path level `level`, None: off the path) has just lost its referrer:
+        note the truth values along the path through its subtree."""
+        k = len(self.pair.path)
+        stack = [(x, level, False)]
+        while stack:
+            n, lvl, anc = stack.pop()
+            me = lvl is not None and not bool(n)
+            chain = anc or me
+            self.detach_info.setdefault(ser(n), (chain, kind, me))
+            for a in ATTRS:
+                onp = lvl is not None and lvl < k and a in self.pair.path[lvl]
+                for y in kids(n, a):
+                    stack.append((y, lvl + 1 if onp else None, chain))
+
+    def apply_truth(self, op):
+        """("truth", serial, k, how): give a node the truth value bool(k) by changing
+        a trait of it that is on no name.  Nobody is to be called; reachability, hence
+        every law, is what it was."""
+        m = self.pool.get(op[1])
+        if m is None or self.nf not in TRUTH_SETTABLE:
+            return False
+        nodes, _ = walk(self.root)
+        attached = {ser(n) for n in nodes}
+        lv = self.level_of()
+        s = ser(m)
+        on_path = s in attached and s in lv
+        was = bool(m)
+        r = self.rec
+        r.clear()
+        del EXC[:]
+        self.trigger = "truth-flip"
+        try:
+            set_truth(m, op[2], op[3])
+        except Exception as e:
+            raise Violation("raised/%s/truth-flip" % type(e).__name__,
+                            "operation %r raised %r" % (op, e))
+        self.nops += 1
+        self.check_exc("truth-flip")
+        self.recent.extend(self.fresh_detached)
+        self.fresh_detached = []
+        self.recent = self.recent[-24:]
+        self.ev()
+        what = "[%s <-> %s] op %r on %r (truth value %s -> %s, %s)" % (
+            self.pair.legacy, self.pair.observe, op, m, was, bool(m),
+            "level %s" % lv.get(s) if on_path else
+            ("off-path" if s in attached else "detached"))
+        if not self.registered:
+            self.check_silent(what)
+        elif r.any_calls():
+            who = ("legacy4" if r.L else "legacy0" if r.Z[0] else
+                   "observe" if (r.O or r.C) else "legacy-sigs")
+            raise Violation("truth-flip/reported-by-%s" % who,
+                            "%s: calls legacy4 %r legacy0 %d observe %r"
+                            % (what, r.L[:3], r.Z[0], (r.O + r.C)[:3]))
+        self.count("truth_ops_silent")
+        if on_path and self.registered and was != bool(m):
+            self.count("truth_flips_onpath")
+            self.sig("truth-flip", lv.get(s) == len(self.pair.path), bool(m), op[3])
+        self.probe_phase()
+        return True
 
     # -- several handler owners ("multi" stratum) ----------------------------------
     def drop_owner(self, j):
@@ -1119,6 +1310,14 @@ class History:
                             if self.sigs:
                                 self.count("sigs_after_remove_nonvacuous_silent")
                             self.sig("probe-after-remove", f)
+                        far = self.falsy_at_remove.get(s) if f in self.pair.finals else None
+                        if far is not None and far[0]:
+                            # hooked when the registration was removed, below (or itself)
+                            # an object that was false at that moment
+                            self.count("truth_falsy_after_remove_nonvacuous_silent")
+                            if far[1] and self.first_truth.get(s):
+                                self.count("truth_turned_falsy_after_remove_silent")
+                            self.sig("probe-after-remove-falsy", f, far[1], is_att)
                         if s in self.dyn_hook_nodes and s in self.ever_final \
                                 and f in self.pair.finals:
                             self.count("dyn_after_remove_nonvacuous_silent")
@@ -1154,6 +1353,13 @@ class History:
                             self.count("multi_post_drop_new_nonempty_matched")
                             self.sig("probe-after-owner-drop", f, len(self.rec.live_followers()))
                     self.ever_final.add(s)
+                    if self.truth:
+                        if s not in self.first_truth:
+                            self.first_truth[s] = bool(n)
+                        if not n:
+                            # a false object is hooked like any other
+                            self.count("truth_falsy_nonempty_matched")
+                            self.sig("probe-falsy", f, "called")
                     if s in self.dyn_hook_nodes:
                         self.count("dyn_nonempty_matched")
                         self.sig("probe-dyn-default", f)
@@ -1174,6 +1380,16 @@ class History:
                             if s in self.dyn_hook_nodes:
                                 self.count("dyn_detached_nonvacuous_silent")
                             self.sig("probe-detached", f, self.trigger)
+                            di = self.detach_info.get(s) if self.truth else None
+                            if di is not None and di[0]:
+                                # detached while it (or an object above it in the detached
+                                # subtree) was false
+                                self.count("truth_falsy_detached_nonvacuous_silent")
+                                self.count("truth_falsy_detached_silent:" + di[1])
+                                if di[2] and self.first_truth.get(s):
+                                    # true when hooked, false when detached
+                                    self.count("truth_turned_falsy_detached_silent")
+                                self.sig("probe-falsy-detached", f, di[1], di[2])
                         if s in wb_final and f in self.pair.finals:
                             # only reachable through a replaced container whose
                             # former owner.attr is on the path: silent
@@ -1284,6 +1500,8 @@ class History:
             return self.apply_stale(op)
         if name == "drop_owner":
             return self.drop_owner(op[1])
+        if name == "truth":
+            return self.apply_truth(op)
         m = self.pool.get(op[1])
         if m is None:
             return False
@@ -1367,9 +1585,16 @@ class History:
             self.detached_roots.append(x)
             sub, _ = walk(x)              # pre-order: the subtree root first
             self.fresh_detached.extend(sub)
+            if self.truth:
+                self.mark_detached(x, i + 1 if on_path else None,
+                                   "group" if on_path and len(self.pair.path[i]) > 1
+                                   else KIND[attr])
         came = [x for x in after if ser(x) not in set(before_ids)]
         for x in came:
             sub, _ = walk(x)
+            if self.truth:
+                for y in sub:
+                    self.detach_info.pop(ser(y), None)
             if any(x is dr for dr in self.detached_roots):
                 self.detached_roots = [dr for dr in self.detached_roots if dr is not x]
                 self.reinserted.update(ser(y) for y in sub)
@@ -1761,6 +1986,8 @@ class History:
             op = self.gen_stale_op(rng, counter, nodes, depths)
             if op is not None:
                 return op
+        if self.nf in TRUTH_SETTABLE and rng.random() < 0.24:
+            return self.gen_truth_op(rng, nodes, lv)
         r = rng.random()
         m = attr = None
         if r < 0.72:
@@ -1920,6 +2147,23 @@ class History:
         return ("set", s, meth)
 
 
+    def gen_truth_op(self, rng, nodes, lv):
+        """Change the truth value of one node: mostly of an object on the path (the
+        root included), mostly from true to false."""
+        r = rng.random()
+        onp = [n for level in lv for n in level]
+        cands = onp if r < 0.85 else (self.recent + self.fresh_detached or nodes)
+        if r >= 0.95:
+            cands = nodes
+        yes = [n for n in cands if n]
+        no = [n for n in cands if not n]
+        first, second = (yes, no) if rng.random() < 0.7 else (no, yes)
+        m = rng.choice(first or second)
+        k = 0 if m else rng.choice((1, 1, 2, 3))
+        if rng.random() < 0.06:
+            k = rng.choice((0, 1, 2))      # now and then a change that is no flip
+        return ("truth", ser(m), k, rng.choice(("assign", "mutate")))
+
     def dict_would_equal(self, cur, xs):
         """Would assigning the literal values xs give a dict equal (by node
         value) to the current one?"""
@@ -2048,7 +2292,7 @@ def shrink(pair, flavour, root_spec, ops, key, budget=120):
     return spec, ops
 
 
-def run_history(ctx, h_index, pairs):
+def run_history(ctx, h_index, pairs, truth=False):
     rng = ctx.rng("hist", h_index)
     pair = pairs[h_index % len(pairs)]
     # node flavours; "eqd" is a small stratum of its own: it alone draws value-equal
@@ -2057,6 +2301,13 @@ def run_history(ctx, h_index, pairs):
     # other histories)
     r = rng.random()
     nf = "plain" if r < 0.42 else ("eq" if r < 0.66 else ("dyn" if r < 0.95 else "eqd"))
+    if truth:
+        # "truth" stratum (histories of its own, appended to the others): node classes
+        # whose instances may be false - by a __len__ over a list of their own or over
+        # their list link, by a __bool__ over a flag trait, or constantly
+        nf = ctx.rng("truth", h_index).choice(
+            ("len", "len", "len", "flag", "flag", "flag", "never", "lenkids"))
+        ctx.count("histories_truth")
     hf = "method" if rng.random() < 0.35 else "fn"
     # "multi" stratum: 1-2 further owner objects register bound methods under the same
     # names on the same root and are dropped (collected) while the registration stands
@@ -2081,7 +2332,7 @@ def run_history(ctx, h_index, pairs):
         if x < 0.15:
             flavour += "+" + rng2.choice(("deferred", "deco-pre", "deco-post"))
             ctx.count("histories_early")
-        elif x < 0.18 and nf != "dyn":
+        elif x < 0.18 and nf != "dyn" and not truth:
             # (no unread dynamic defaults here: this registration reads nothing, the
             # harness would be the first reader)
             flavour += "+deferred-late"
@@ -2144,6 +2395,9 @@ def run_history(ctx, h_index, pairs):
             kp = v.key.split("/")
             key = ("late-deferred/observe-only" if len(kp) > 1 and kp[1] == "observe-only"
                    else key + "+late-deferred")
+        if truth:
+            # a failure on a graph of objects that may be false is a class of its own
+            key += "+falsy-nodes"
         if ctx.viol_per_key.get(key, 0) < 2:
             try:
                 spec2, ops2 = shrink(pair, flavour, root_spec, ops, v.key)
@@ -2171,5 +2425,15 @@ def run(ctx):
             continue
         try:
             run_history(ctx, h, pairs)
+        finally:
+            ctx.end()
+    # the "truth" stratum: further histories (the ones above stay what they were)
+    for h in range(nh, nh + ctx.scale(720, 9000)):
+        if not ctx.mine(h):
+            continue
+        if not ctx.begin("h:%d" % h):
+            continue
+        try:
+            run_history(ctx, h, pairs, truth=True)
         finally:
             ctx.end()
